@@ -77,6 +77,7 @@ type fileCtx struct {
 	handledChanTypes map[*ast.ChanType]bool
 	needSimrt        bool
 	skip             [][2]token.Pos // source ranges already replaced as a whole (select comm clauses)
+	localPkgs        map[string]bool
 }
 
 // GoCmd is the go command used for `go list` (must be the toolchain the
@@ -131,6 +132,12 @@ func Instrument(dir, simrtSrc string, env []string) (*Report, error) {
 	})
 
 	absDir, _ := filepath.Abs(dir)
+	localPkgs := map[string]bool{}
+	for _, p := range pkgs {
+		if !p.Standard && strings.HasPrefix(p.Dir, absDir) {
+			localPkgs[p.ImportPath] = true
+		}
+	}
 	for _, p := range pkgs {
 		if p.Standard || !strings.HasPrefix(p.Dir, absDir) || len(p.GoFiles) == 0 {
 			continue
@@ -171,7 +178,7 @@ func Instrument(dir, simrtSrc string, env []string) (*Report, error) {
 			fc := &fileCtx{
 				fset: fset, file: af, tf: fset.File(af.Pos()), info: info, rel: rel, rep: rep,
 				pkgUse: map[string][2]int{}, isMain: p.Name == "main",
-				handledChanTypes: map[*ast.ChanType]bool{},
+				handledChanTypes: map[*ast.ChanType]bool{}, localPkgs: localPkgs,
 			}
 			src, err := os.ReadFile(names[i])
 			if err != nil {
@@ -489,7 +496,7 @@ var randFuncs = map[string]string{
 var timeSeams = map[string]bool{"Now": true, "Since": true, "Sleep": true, "After": true, "Tick": true, "NewTimer": true, "NewTicker": true, "AfterFunc": true, "Timer": true, "Ticker": true}
 
 var syncTypes = map[string]string{
-	"Mutex": "Mutex", "RWMutex": "RWMutex", "WaitGroup": "WaitGroup", "Once": "Once",
+	"Mutex": "Mutex", "RWMutex": "RWMutex", "WaitGroup": "WaitGroup", "Once": "Once", "Map": "SyncMap", "Pool": "Pool",
 }
 
 func (fc *fileCtx) skipped(n ast.Node) bool {
@@ -696,19 +703,68 @@ func (fc *fileCtx) visit(n ast.Node, parent ast.Node, d int) {
 				fc.replace(n.Pos(), n.End(), "simrt.ErrGroup", d, false)
 				fc.markRewritten(local)
 				fc.count("errgroup.Group")
+			case "WithContext":
+				fc.replace(n.Pos(), n.End(), "simrt.ErrGroupWithContext", d, false)
+				fc.markRewritten(local)
+				fc.count("errgroup.WithContext")
 			default:
 				fc.unsupported(n.Pos(), "errgroup."+n.Sel.Name)
 			}
 		case "context":
 			switch n.Sel.Name {
 			case "WithTimeout", "WithDeadline", "WithCancel":
+				fc.replace(n.Pos(), n.End(), "simrt."+n.Sel.Name, d, false)
+				fc.markRewritten(local)
+				fc.count("context." + n.Sel.Name)
+			case "WithCancelCause", "WithTimeoutCause", "WithDeadlineCause", "AfterFunc":
 				fc.unsupported(n.Pos(), "context."+n.Sel.Name)
+			}
+		case "os/signal":
+			if n.Sel.Name == "NotifyContext" || n.Sel.Name == "Notify" {
+				fc.unsupported(n.Pos(), "signal."+n.Sel.Name)
 			}
 		}
 	}
 }
 
+// externalChanCall: a call into a package outside the module (other than
+// the seams of package time) whose single result is a channel.
+func (fc *fileCtx) externalChanCall(n *ast.CallExpr) bool {
+	tv, ok := fc.info.Types[n]
+	if !ok || tv.Type == nil {
+		return false
+	}
+	if _, isChan := under(tv.Type).(*types.Chan); !isChan {
+		return false
+	}
+	var obj types.Object
+	switch f := n.Fun.(type) {
+	case *ast.Ident:
+		obj = fc.info.Uses[f]
+	case *ast.SelectorExpr:
+		if sel, ok := fc.info.Selections[f]; ok {
+			obj = sel.Obj()
+		} else {
+			obj = fc.info.Uses[f.Sel]
+		}
+	}
+	fn, ok := obj.(*types.Func)
+	if !ok || fn.Pkg() == nil {
+		return false
+	}
+	path := fn.Pkg().Path()
+	if fc.localPkgs[path] || path == "time" {
+		return false
+	}
+	return true
+}
+
 func (fc *fileCtx) visitCall(n *ast.CallExpr, d int) {
+	if fc.externalChanCall(n) {
+		fc.insertBefore(n.Pos(), "simrt.Twin(", d)
+		fc.insertAfter(n.End(), ")", d)
+		fc.count("external_chan_call")
+	}
 	// builtins on channels
 	if id, ok := n.Fun.(*ast.Ident); ok {
 		if _, isBuiltin := fc.info.Uses[id].(*types.Builtin); isBuiltin && len(n.Args) >= 1 {
@@ -948,6 +1004,8 @@ func (fc *fileCtx) rewriteSelect(n *ast.SelectStmt, d int) {
 		if recvX != nil {
 			if text, ok := fc.timerOperand(recvX); ok {
 				fmt.Fprintf(&pro, "%s := simrt.NewRecv(%s); ", name, text)
+			} else if call, isCall := ast.Unparen(recvX).(*ast.CallExpr); isCall && fc.externalChanCall(call) && fc.simpleExpr(recvX) {
+				fmt.Fprintf(&pro, "%s := simrt.NewRecv(simrt.Twin(%s)); ", name, fc.srcOf(src, recvX))
 			} else if !fc.simpleExpr(recvX) {
 				fc.unsupported(recvX.Pos(), "select case with a nested channel operation or seam call")
 				return
